@@ -8,6 +8,7 @@ CONSTANTS
   WithCrash = TRUE
   HeadInBatch = TRUE
   CrashInHeadWindow = TRUE
+  WithTamper = FALSE
   SpendTrimCandidate = FALSE
 VIEW view
 INVARIANTS TypeOK ReorgEqualsFreshReplay CommitmentEqualsContent Recoverable SpentAtMostOnce
